@@ -196,4 +196,13 @@ example :
       (lat t).cmp a [(3, some [5])] = none ∧ (lat t).beq a a' = true := by
   exact ⟨rfl, rfl, rfl, rfl, rfl⟩
 
+/-! `DomPair` over a totally ordered key is inside the domain: lexicographic comparison -/
+example :
+    let t := LTy.domPair (LTy.withBot (LTy.maxN 255)) (LTy.map LTy.set)
+    let a : Option Nat × List (Nat × List Nat) := (some 3, [(1, [1])])
+    let b : Option Nat × List (Nat × List Nat) := (some 3, [(1, [1, 2])])
+    let c : Option Nat × List (Nat × List Nat) := (none, [(9, [9])])
+    ok3 t = true ∧ (lat t).cmp a b = some .lt ∧ (lat t).cmp c a = some .lt ∧ (lat t).cmp b a = some .gt := by
+  exact ⟨rfl, rfl, rfl, rfl⟩
+
 end HvLat
